@@ -22,7 +22,7 @@ KNOWN_FILE = os.path.join(VERIF, "known_findings.json")
 NCPU = min(16, os.cpu_count() or 4)
 
 DEFAULT_GUARD_BASE = 64 << 20
-DEFAULT_GUARD_PER_CHAR = 64
+DEFAULT_GUARD_PER_CHAR = 1024
 MAX_CASES_PER_KEY = 3  # violation cases kept per key per shard
 MAX_VIOLATION_LINES = 40
 
@@ -70,12 +70,7 @@ class Ctx:
         return self.drivers[b]
 
     def call(self, req, build=None, watchdog=None):
-        if "guard" not in req:
-            # default allocation guard: generous for every legitimate operation, but turns a declared-length allocation bomb
-            # into a deterministic observation instead of a multi-GiB memset (16 shards share this machine)
-            req = dict(req)
-            req["guard"] = DEFAULT_GUARD_BASE + DEFAULT_GUARD_PER_CHAR * sum(len(v) for v in req.values() if isinstance(v, str))
-        r = self.drv(build).call(req, watchdog=watchdog)
+        r = self.drv(build).call(req, watchdog=watchdog, auto_guard=(DEFAULT_GUARD_BASE, DEFAULT_GUARD_PER_CHAR))
         o = drvmod.outcome(r)
         self.outcomes[o] += 1
         if o == "timeout":
